@@ -364,7 +364,11 @@ class KademliaProtocol(DatagramProtocol):
     async def _add_peer(self, peer: 'KademliaPeer'):
         async def probe(some_peer: 'KademliaPeer'):
             rpc_peer = self.get_rpc_peer(some_peer)
-            await rpc_peer.ping()
+            try:
+                await rpc_peer.ping()
+            except OSError as err:
+                # the ping could not even be sent: no evidence against the incumbent, it keeps its place
+                log.warning("could not send liveness probe to %s:%s: %s", some_peer.address, some_peer.udp_port, err)
         return await self.routing_table.add_peer(peer, probe)
 
     def add_peer(self, peer: 'KademliaPeer'):
